@@ -1340,6 +1340,12 @@ class Exec:
                     (tb_.endswith("*") or tb_.endswith("]")):
                 # two pointers into the same array: compare / subtract the element offsets
                 (pa, oa), (pb, ob) = sym.ptr_split(a), sym.ptr_split(b)
+                if pa != pb:
+                    # a pointer field that its constructor sets to an element of another array of the same object (TLweSample::b is
+                    # &a[k]): the same array
+                    a2, b2 = self._field_alias(a), self._field_alias(b)
+                    if (a2, b2) != (a, b):
+                        (pa, oa), (pb, ob) = sym.ptr_split(a2), sym.ptr_split(b2)
                 if pa == pb and (oa != ZERO or ob != ZERO):
                     return sym.binop(op, oa, ob)
             if t.endswith("*") and op in ("+", "-"):
@@ -1706,6 +1712,7 @@ class Exec:
             count = args[1]
         if name in ("std::copy", "std::copy_n", "std::reverse_copy") and not ptr(an[2]):
             return False
+        self._algo_count = count
         Exec.serial += 1
         u = sym.sym("u%d@%d" % (Exec.serial, e["l"]))
         first = args[0]
@@ -1751,10 +1758,17 @@ class Exec:
         while nb[0] == "cast":
             nb = nb[2]
         items = sym.poly_items(nb)
+        partial = None
         if not items or not all(c % es == 0 for _, c in items):
-            return False
-        cv = sym.const_value(nb)
-        count = I(cv // es) if cv is not None else sym._from_poly({m_: c_ // es for m_, c_ in items})
+            if not is_set:
+                return False
+            # memset(dst, 0, nb) with nb not (provably) a multiple of the element size: the first nb / size elements are zero, the
+            # element after them is touched in part when nb % size != 0
+            count = sym.binop("/", nb, I(es))
+            partial = sym.binop("!=", sym.binop("%", nb, I(es)), ZERO)
+        else:
+            cv = sym.const_value(nb)
+            count = I(cv // es) if cv is not None else sym._from_poly({m_: c_ // es for m_, c_ in items})
         strip = lambda t: strip(t[2]) if t[0] == "cast" else t
         dst = strip(args[0])
         Exec.serial += 1
@@ -1763,12 +1777,58 @@ class Exec:
             st = {"e": "store", "lv": sym.idx(dst, u), "op": "=", "val": ZERO, "l": e["l"], "t": "", "ct": ""}
         else:
             st = {"e": "store", "lv": sym.idx(dst, u), "op": "=", "val": sym.idx(strip(args[1]), u), "l": e["l"], "t": "", "ct": ""}
-        if self._emit_unrolled(st, u, count, out):
-            return True
-        out.append({"e": "loop", "var": u, "lo": ZERO, "cmp": "<", "hi": self._clamp(count), "step": I(1), "body": [st], "l": e["l"],
-                    "name": "u", "algorithm": name})
-        self.forget_stores_in([st])
+        if not self._emit_unrolled(st, u, count, out):
+            out.append({"e": "loop", "var": u, "lo": ZERO, "cmp": "<", "hi": self._clamp(count), "step": I(1), "body": [st], "l": e["l"],
+                        "name": "u", "algorithm": name})
+            self.forget_stores_in([st])
+        if partial is not None:
+            Exec.serial += 1
+            pst = {"e": "store", "lv": sym.idx(dst, count), "op": "=", "val": ("unk", "partly-cleared:%d" % Exec.serial), "l": e["l"], "t": "", "ct": ""}
+            pc = sym.const_value(sym.fold(partial)) if hasattr(sym, "fold") else None
+            if pc is None:
+                out.append({"e": "if", "cond": partial, "then": [pst], "else": [], "then_status": "fall", "else_status": "fall", "l": e["l"]})
+            elif pc:
+                out.append(pst)
         return True
+
+    def _field_alias(self, t):
+        """x->F  ->  &x->G[x->E] when every record with a pointer field F has a constructor that sets F = &G[... E] and a field E"""
+        tab = getattr(self.v, "_ptr_field_aliases", None)
+        if tab is None:
+            tab = {}
+            seen = {}
+            for c in self.v.defined():
+                if c.get("kind") != "ctor" or c.get("implicit") or not c.get("record"):
+                    continue
+                for n_ in walk([c.d.get("body"), c.d.get("inits")]):
+                    src = None
+                    if n_.get("k") == "assign" and n_.get("op") == "=" and isinstance(n_.get("a"), dict) and n_["a"].get("k") == "member":
+                        fld_, src = n_["a"].get("field"), n_.get("b")
+                    elif n_.get("field") and isinstance(n_.get("e"), dict) and "k" in n_["e"]:
+                        fld_, src = n_["field"], n_["e"]
+                    if src is None:
+                        continue
+                    while isinstance(src, dict) and src.get("k") in ("cast", "paren"):
+                        src = src.get("a")
+                    if isinstance(src, dict) and src.get("k") == "bin" and src.get("op") == "+" and isinstance(src.get("a"), dict) and \
+                            src["a"].get("k") in ("member", "ref") and strip_cv(src["a"].get("t", "")).endswith("*"):
+                        g_ = src["a"].get("field") or src["a"].get("n")
+                        e_ = src["b"]
+                        while isinstance(e_, dict) and e_.get("k") in ("cast", "paren"):
+                            e_ = e_.get("a")
+                        en = (e_.get("field") or e_.get("n")) if isinstance(e_, dict) else None
+                        rec = self.v.records.get(c.get("record")) or {}
+                        fields = {f_.get("name") or f_.get("n") for f_ in rec.get("fields", [])}
+                        if g_ and en and g_ in fields and en in fields:
+                            seen.setdefault(fld_, set()).add((g_, en))
+            for fld_, alts in seen.items():
+                if len(alts) == 1:
+                    tab[fld_] = next(iter(alts))
+            self.v._ptr_field_aliases = tab
+        if isinstance(t, tuple) and t and t[0] == "fld" and t[2] in tab:
+            g_, en = tab[t[2]]
+            return sym.addr(sym.idx(("fld", t[1], g_), ("fld", t[1], en)))
+        return t
 
     def _emit_unrolled(self, st, u, count, out):
         """with concrete dimensions (a rule interprets the function for small sizes) an element loop of constant length is its
@@ -1833,6 +1893,11 @@ class Exec:
         if name in ("std::fill", "std::fill_n", "std::copy", "std::copy_n", "std::reverse_copy") and self._std_algorithm(e, name, args, out):
             if name == "std::fill":
                 return None
+            cnt_ = getattr(self, "_algo_count", None)
+            outp = args[0] if name == "std::fill_n" else args[2]
+            if cnt_ is not None and isinstance(outp, tuple):
+                b_, o_ = sym.ptr_split(outp)
+                return sym.addr(sym.idx(b_, sym.add(o_, cnt_)))          # the end of the range written
             Exec.serial += 1
             return ("unk", "%s-result:%d" % (name, Exec.serial))
         if name in NORETURN_NAMES or e.get("noreturn") or self.hooks.is_noreturn(self, name, usr):
